@@ -30,6 +30,7 @@ import ast
 from ..astutil import call_name, calls, const_eval, names_in, param_names, stmts, walk_local
 from ..cfg import CFG
 from ..core import AnalysisError, Mutant
+from ..exprnorm import canon, check_spec, show, spec, summarize
 from .C15 import assigns, dead_params, ret_expr, single_def
 
 EXPLANATION = (
@@ -140,63 +141,81 @@ def run(ctx):
 
 # ---------------- R1 ---------------------------------------------------------
 
+def _self_attr(e):
+    return e.attr if isinstance(e, ast.Attribute) and isinstance(e.value, ast.Name) and e.value.id == "self" else None
+
+
+def apply_ops(e, data_names):
+    """operations applied to the coordinates, innermost first, read off the
+    nesting of the summarised result expression"""
+    def has_data(x):
+        return any(isinstance(n, ast.Name) and n.id in data_names for n in ast.walk(x))
+
+    if isinstance(e, ast.IfExp):
+        a, b = apply_ops(e.body, data_names), apply_ops(e.orelse, data_names)
+        return a if a == b else [("?branches-differ", None)]
+    if isinstance(e, ast.BinOp) and isinstance(e.op, (ast.Add, ast.Sub)):
+        l, r = e.left, e.right
+        for data, other in ((l, r), (r, l)):
+            attrs = [_self_attr(n) for n in ast.walk(other) if _self_attr(n)]
+            if has_data(data) and attrs and not has_data(other):
+                kind = "translate" if isinstance(e.op, ast.Add) else ("translate-negated" if data is l else "?")
+                return apply_ops(data, data_names) + [(kind, attrs[0])]
+    if isinstance(e, ast.Call):
+        cn = call_name(e)
+        if cn == "_multi_matmul" and len(e.args) == 2:
+            a = _self_attr(e.args[0])
+            return apply_ops(e.args[1], data_names) + [("rotate" if a else "?rotate-arg", a)]
+        if cn == "__setattr__":
+            return apply_ops(e.args[2], data_names)
+        if isinstance(e.func, ast.Attribute) and has_data(e.func.value):
+            return apply_ops(e.func.value, data_names)
+        for a in e.args:
+            if has_data(a):
+                return apply_ops(a, data_names)
+    if isinstance(e, (ast.Subscript, ast.Attribute)) and has_data(e.value):
+        return apply_ops(e.value, data_names)
+    return []
+
+
 def r1_transform(ctx, s):
     ap = s.func("AffineTransformation.apply")
-    # operation sequence on the working copy
-    ops = []
-    for st in ap.body:
-        attrs = [n.attr for n in ast.walk(st) if isinstance(n, ast.Attribute) and isinstance(n.value, ast.Name) and n.value.id == "self"
-                 and n.attr in ("center_translation", "rotation", "target_translation")]
-        if isinstance(st, ast.AugAssign) and isinstance(st.op, ast.Add) and attrs:
-            ops.append(("translate", attrs[0]))
-        elif isinstance(st, ast.AugAssign) and attrs:
-            ops.append(("?" + type(st.op).__name__, attrs[0]))
-        elif isinstance(st, ast.Assign) and isinstance(st.value, ast.Call) and call_name(st.value) == "_multi_matmul" and attrs:
-            a0 = st.value.args[0]
-            ops.append(("rotate" if ast.unparse(a0) == "self." + attrs[0] else "?arg", attrs[0]))
+    sm = summarize(ap)
+    ctx.need(sm.result is not None, "apply: summarisable result")
+    ops = apply_ops(sm.result, {"atoms"})
     ctx.ob("R1.apply-sequence", SUP, "AffineTransformation.apply", str(ops),
            ops == [("translate", "center_translation"), ("rotate", "rotation"), ("translate", "target_translation")],
            "apply is: add center_translation, rotate, add target_translation", ap.lineno)
     am = s.func("AffineTransformation.as_matrix")
-    ret = ret_expr(am)
-    chain = []
-    e = ret
-    while isinstance(e, ast.BinOp) and isinstance(e.op, ast.MatMult):
-        chain.insert(0, e.right)
-        e = e.left
-    chain.insert(0, e)
-    ctx.need(all(isinstance(x, ast.Name) for x in chain) and len(chain) == 3, "as_matrix: product of three named factors")
-    fills = {}
-    inits = {}
-    for st in stmts(am):
-        if isinstance(st, ast.Assign) and isinstance(st.targets[0], ast.Subscript) and isinstance(st.targets[0].value, ast.Name):
-            fills.setdefault(st.targets[0].value.id, []).append((ast.unparse(st.targets[0].slice).strip("()"), ast.unparse(st.value)))
-        if isinstance(st, ast.Assign) and isinstance(st.targets[0], ast.Name):
-            inits[st.targets[0].id] = ast.unparse(st.value)
+    sa_ = summarize(am)
+    ctx.need(sa_.result is not None, "as_matrix: summarisable result")
+    cr = canon(sa_.result)
+    ctx.need(isinstance(cr, tuple) and cr[0] == "@" and len(cr) == 4, "as_matrix: product of three factors")
     factor_attr = []
-    for x in chain:
-        fl = fills.get(x.id, [])
-        ctx.need(len(fl) == 1, f"as_matrix: single block assignment of {x.id}")
-        sl, val = fl[0]
-        attr = val[len("self."):] if val.startswith("self.") else val
+    for fac in cr[1:]:
+        okf = isinstance(fac, tuple) and fac[:2] == ("call", "__set__") and len(fac) >= 5
+        ctx.need(okf, "as_matrix: each factor is an identity with one block assigned")
+        init, idx, val = fac[2], fac[3], fac[4]
+        attr = val[2] if isinstance(val, tuple) and val[:2] == ("attr", "self") else None
         factor_attr.append(attr)
-        want = ":, :3, :3" if attr == "rotation" else ":, :3, 3"
-        ctx.ob("R1.matrix-block", SUP, "AffineTransformation.as_matrix", f"{x.id}[{sl}] = {val}", sl == want,
-               f"{attr} belongs into block [{want}] of a homogeneous 4x4 matrix acting on column vectors", am.lineno)
-        ctx.ob("R1.matrix-identity", SUP, "AffineTransformation.as_matrix", f"{x.id} = {inits.get(x.id)}",
-               inits.get(x.id) == "_3d_identity(n_models, 4)", "every factor starts as a 4x4 identity per model", am.lineno)
-    ctx.ob("R1.matrix-order", SUP, "AffineTransformation.as_matrix", " @ ".join(factor_attr),
+        block = idx[2] if isinstance(idx, tuple) and idx[0] == "[]" else None
+        rows = ("slice", None, ("const", 3), None)
+        allm = ("slice", None, None, None)
+        want = ("tuple", allm, rows, rows) if attr == "rotation" else ("tuple", allm, rows, ("const", 3))
+        ctx.ob("R1.matrix-block", SUP, "AffineTransformation.as_matrix", f"self.{attr} -> block {show(block, 90)}", block == want,
+               f"{attr} belongs into block {'[:, :3, :3]' if attr == 'rotation' else '[:, :3, 3]'} of a homogeneous 4x4 matrix acting on column vectors",
+               am.lineno)
+        okid = isinstance(init, tuple) and init[:2] == ("call", "_3d_identity") and init[3] == ("const", 4)
+        ctx.ob("R1.matrix-identity", SUP, "AffineTransformation.as_matrix", f"factor of self.{attr} starts as {show(init, 80)}", okid,
+               "every factor starts as a 4x4 identity per model", am.lineno)
+    ctx.ob("R1.matrix-order", SUP, "AffineTransformation.as_matrix", " @ ".join(str(a) for a in factor_attr),
            factor_attr == [a for _, a in reversed(ops)],
            f"the product must list the operations of apply() right to left: apply does {[a for _, a in ops]}", am.lineno)
-    ident = s.func("_3d_identity")
-    sts = [ast.unparse(x) for x in stmts(ident)]
-    ctx.ob("R1.identity-helper", SUP, "_3d_identity", "zeros + diagonal ones",
-           "matrices = np.zeros((m, n, n), dtype=float)" in sts and "matrices[:, indices, indices] = 1" in sts
-           and "indices = np.arange(n)" in sts, "m identity matrices of size n", ident.lineno)
-    mm = ret_expr(s.func("_multi_matmul"))
-    ctx.ob("R1.column-convention", SUP, "_multi_matmul", ast.unparse(mm),
-           ast.unparse(mm) == "np.transpose(np.matmul(matrices, np.transpose(vectors, axes=(0, 2, 1))), axes=(0, 2, 1))",
-           "coordinates are rotated as R @ x per model (column vectors), the convention as_matrix uses", mm.lineno)
+    check_spec(ctx, "R1.identity-helper", SUP, "_3d_identity",
+               "__set__(np.zeros((m, n, n), dtype=float), __idx__[:, np.arange(n), np.arange(n)], 1)", "m identity matrices of size n")
+    check_spec(ctx, "R1.column-convention", SUP, "_multi_matmul",
+               "np.transpose(matrices @ np.transpose(vectors, axes=(0, 2, 1)), axes=(0, 2, 1))",
+               "coordinates are rotated as R @ x per model (column vectors), the convention as_matrix uses")
     # rank dispatch
     r3 = s.func("_reshape_to_3d")
     tests = {}
@@ -507,16 +526,15 @@ def r5_homologs(ctx, s):
 # ---------------- R6 ---------------------------------------------------------
 
 def r6_rmsd(ctx):
-    c = ctx.src(CMP)
-    r = ret_expr(c.func("rmsd"))
-    ctx.ob("R6.rmsd", CMP, "rmsd", ast.unparse(r), ast.unparse(r) == "np.sqrt(np.mean(_sq_euclidian(reference, subject), axis=-1))",
-           "root of the mean over the atom axis of the squared deviations", r.lineno)
-    f = c.func("_sq_euclidian")
-    d = assigns(f)
-    ctx.ob("R6.sq-deviation", CMP, f.name, "vector_dot(dif, dif)",
-           ast.unparse(ret_expr(f)) == "vector_dot(dif, dif)" and ast.unparse(d["dif"][0]) in ("subject_coord - reference_coord", "reference_coord - subject_coord")
-           and ast.unparse(d["subject_coord"][0]) == "coord(subject)" and ast.unparse(d["reference_coord"][0]) == "coord(reference)",
-           "squared Euclidean distance of corresponding atoms", f.lineno)
+    check_spec(ctx, "R6.rmsd", CMP, "rmsd", "np.sqrt(np.mean(_sq_euclidian(reference, subject), axis=-1))",
+               "root of the mean over the atom axis of the squared deviations")
+    f = ctx.src(CMP).func("_sq_euclidian")
+    sm = summarize(f)
+    ctx.need(sm.result is not None, "_sq_euclidian result")
+    specs = [spec("vector_dot(coord(subject) - coord(reference), coord(subject) - coord(reference))"),
+             spec("vector_dot(coord(reference) - coord(subject), coord(reference) - coord(subject))")]
+    ctx.ob("R6.sq-deviation", CMP, f.name, "vector_dot(d, d), d = subject - reference", canon(sm.result) in specs,
+           "squared Euclidean distance of corresponding atoms; the code computes " + ast.unparse(sm.result)[:200], f.lineno)
 
 
 MUTANTS = [
@@ -548,5 +566,9 @@ MUTANTS = [
     Mutant("align-order", SUP, "            fixed_seq,\n            mobile_seq,\n            substitution_matrix,", "            mobile_seq,\n            fixed_seq,\n            substitution_matrix,", "R2.role-argument"),
     Mutant("offset-role", SUP, "mobile_seq_offset += len(mobile_seq)", "mobile_seq_offset += len(fixed_seq)", "R2.role-provenance"),
     Mutant("homolog-selected-one-side", SUP, "    mobile_anchor_indices = mobile_anchor_indices[selected_anchor_indices]\n", "", "R5.selected-both"),
+    Mutant("refactor-apply-no-augassign", SUP, "superimposed_coord += self.center_translation[:, np.newaxis, :]", "superimposed_coord = self.center_translation[:, np.newaxis, :] + superimposed_coord", "R1.apply-sequence", kind="silent"),
+    Mutant("refactor-asmatrix-names", SUP, "center_translation_mat", "c4", "R1.matrix-order", count=3, kind="silent"),
+    Mutant("refactor-multimatmul-operator", SUP, "np.matmul(matrices, np.transpose(vectors, axes=(0, 2, 1)))", "matrices @ np.transpose(vectors, axes=(0, 2, 1))", "R1.column-convention", kind="silent"),
+    Mutant("refactor-rmsd-temporary", CMP, "    return np.sqrt(np.mean(_sq_euclidian(reference, subject), axis=-1))", "    sq = _sq_euclidian(reference, subject)\n    return np.sqrt(np.mean(sq, axis=-1))", "R6.rmsd", kind="silent"),
     Mutant("rmsd-sum", CMP, "np.sqrt(np.mean(_sq_euclidian(reference, subject), axis=-1))", "np.sqrt(np.sum(_sq_euclidian(reference, subject), axis=-1))", "R6.rmsd"),
 ]
